@@ -1,4 +1,5 @@
 mod faulty;
+mod group;
 mod keyspace;
 mod model;
 mod storage;
@@ -8,6 +9,9 @@ fn main() {
     let cmd = std::env::args().nth(1).unwrap_or_default();
     if cmd == "replay-keyspace" {
         return keyspace::main();
+    }
+    if cmd == "record-group" {
+        return group::record();
     }
     let rt = tokio::runtime::Builder::new_multi_thread().worker_threads(8).enable_all().build().unwrap();
     match cmd.as_str() {
